@@ -59,30 +59,33 @@ structure Gen where
   evald : List Ind
 deriving Repr
 
+/-- deme ids are paths of per-level creation indices: `root = []`, `"3/4" = [3, 4]` -/
+abbrev Id := List Nat
+
 structure Deme where
-  id : String
+  id : Id
   level : Nat
-  parent : Option String
+  parent : Option Id
   startedAt : Nat
   active : Bool
   hib : Bool
   hist : List (List Gen)       -- metaepochs → generations
   counter : Nat                -- `deme.n_evaluations`
-  children : List String
+  children : List Id
   seed : Option Ind
 deriving Repr
 
 /-- one invocation of the user's objective (ghost log) -/
 structure Inv where
   level : Nat
-  deme : String
+  deme : Id
   x : List Rat
   v : Fit
 deriving Repr
 
 inductive Pc
   | head
-  | running (queue : List String) (cur : Option (String × Nat × List Gen))
+  | running (queue : List Id) (cur : Option (Id × Nat × List Gen))
   | post
   | done
 deriving Repr
@@ -91,7 +94,7 @@ structure T where
   cfg : Cfg
   metaepoch : Nat
   demes : List Deme
-  levels : List (List String)
+  levels : List (List Id)
   stacks : List (List Problem.Wrapper)
   pc : Pc
   log : List Inv
@@ -102,9 +105,18 @@ structure T where
 deriving Repr
 
 def T.height (t : T) : Nat := t.cfg.levels.length
-def T.find (t : T) (id : String) : Option Deme := t.demes.find? (·.id == id)
-def T.update (t : T) (id : String) (f : Deme → Deme) : T :=
-  { t with demes := t.demes.map fun d => if d.id == id then f d else d }
+def T.find (t : T) (id : Id) : Option Deme := t.demes.find? (·.id == id)
+
+/-- apply `f` to the first deme with this id (the code mutates the object itself) -/
+def updFirst (id : Id) (f : Deme → Deme) : List Deme → List Deme
+  | [] => []
+  | d :: ds => if d.id == id then f d :: ds else d :: updFirst id f ds
+
+def T.update (t : T) (id : Id) (f : Deme → Deme) : T :=
+  { t with demes := updFirst id f t.demes }
+
+def showId (id : Id) : String :=
+  if id.isEmpty then "root" else "/".intercalate (id.map toString)
 
 def Deme.gens (d : Deme) : List Gen := d.hist.flatten
 def Deme.allInds (d : Deme) : List Ind := d.gens.flatMap (·.inds)
@@ -130,7 +142,7 @@ def gscEval (t : T) (envv : Option Bool) : Gsc → Option Bool
   | .weighted limit w =>
     some (decide ((t.demes.map fun d => (w.getD d.level 0) * (d.counter : Rat)).sum ≥ limit))
   | .precision s l => ((t.stacks.getD s []).getD l (.counting 0)).hitPrecision |> some
-  | .rootStopped => (t.find "root").map fun d => !d.active
+  | .rootStopped => (t.find []).map fun d => !d.active
   | .allStopped => some (t.demes.all fun d => !d.active)
   | .noActiveNonroot n =>
     some ((List.range (t.height - 1)).all fun k =>
@@ -164,16 +176,16 @@ def inBox (box : List (Rat × Rat)) (x : List Rat) : Bool :=
 /-- one `problem.evaluate(x)` issued by deme `id` at level `lvl`: the deme's own counting
 wrapper, then the level's (possibly shared) wrapper stack, then — if no cutoff refuses —
 the objective.  Returns the fitness the deme stores. -/
-def evalReq (t : T) (id : String) (lvl : Nat) (counts : Bool) (r : Req) : Except String (T × Ind) :=
+def evalReq (t : T) (id : Id) (lvl : Nat) (counts : Bool) (r : Req) : Except String (T × Ind) :=
   match t.cfg.levels[lvl]? with
   | none => .error s!"no level {lvl}"
   | some lc =>
-    if !inBox lc.box r.x && r.v.isSome then .error s!"objective invoked outside the box by {id}" else
+    if !inBox lc.box r.x && r.v.isSome then .error s!"objective invoked outside the box by {showId id}" else
     let st := t.stacks.getD lc.stack []
     let res := Problem.evalStack t.cfg.maximize st (r.v.getD (Fit.sentinel t.cfg.maximize))
     if res.2.2 != r.v.isSome then
-      .error (if res.2.2 then s!"request by {id} was not forwarded to the objective although no cutoff is exhausted"
-              else s!"objective invoked by {id} although an evaluation cutoff is exhausted")
+      .error (if res.2.2 then s!"request by {showId id} was not forwarded to the objective although no cutoff is exhausted"
+              else s!"objective invoked by {showId id} although an evaluation cutoff is exhausted")
     else
       let t1 := { t with stacks := t.stacks.set lc.stack res.1 }
       let t2 := if counts then t1.update id fun d => { d with counter := d.counter + 1 } else t1
@@ -181,7 +193,7 @@ def evalReq (t : T) (id : String) (lvl : Nat) (counts : Bool) (r : Req) : Except
                 else { t2 with refused := true }
       .ok (t3, ⟨r.x, res.2.1⟩)
 
-def evalReqs (t : T) (id : String) (lvl : Nat) (counts : Bool) : List Req → Except String (T × List Ind)
+def evalReqs (t : T) (id : Id) (lvl : Nat) (counts : Bool) : List Req → Except String (T × List Ind)
   | [] => .ok (t, [])
   | r :: rs => do
     let (t1, i) ← evalReq t id lvl counts r
@@ -212,10 +224,10 @@ def genOk (mx : Bool) (lc : LevelCfg) (parents evald pop : List Ind) (expectedSi
     .error "one-to-one replacement violated: some order statistic got worse"
   else .ok ()
 
-def finish (q : List String) : Pc := if q.isEmpty then .post else .running q none
+def finish (q : List Id) : Pc := if q.isEmpty then .post else .running q none
 
 /-- `reversed(active_demes)` without the hibernating ones -/
-def schedule (t : T) : List String :=
+def schedule (t : T) : List Id :=
   ((t.levelMajor.filter fun d => d.active && !(t.cfg.hibernation && d.hib)).map (·.id)).reverse
 
 -- ---------------------------------------------------------------- creating demes
@@ -224,17 +236,17 @@ structure NewEnv where
   pop : List Ind
 deriving Repr
 
-def nextChildId (t : T) (parent : Deme) : String :=
-  let suffix := (t.levels.getD (parent.level + 1) []).length
-  if parent.id == "root" then toString suffix else s!"{parent.id}/{suffix}"
+/-- `_next_child_id`: the parent's id extended by the current size of the target level -/
+def nextChildId (t : T) (parent : Deme) : Id :=
+  parent.id ++ [(t.levels.getD (parent.level + 1) []).length]
 
 /-- `init_from_config` + registration (`add_child`, `levels[target].append`) -/
 def createDeme (t : T) (parent : Option Deme) (seed : Option Ind) (env : NewEnv) : Except String T := do
   let lvl := match parent with | some p => p.level + 1 | none => 0
-  let id := match parent with | some p => nextChildId t p | none => "root"
+  let id : Id := match parent with | some p => nextChildId t p | none => []
   let lc ← match t.cfg.levels[lvl]? with
     | some lc => pure lc
-    | none => throw s!"sprout below the last level ({id})"
+    | none => throw s!"sprout below the last level ({showId id})"
   let d0 : Deme := { id := id, level := lvl, parent := parent.map (·.id), startedAt := t.metaepoch,
                      active := true, hib := false, hist := [], counter := 0, children := [], seed := seed }
   let t0 := { t with demes := t.demes ++ [d0],
@@ -249,18 +261,18 @@ def createDeme (t : T) (parent : Option Deme) (seed : Option Ind) (env : NewEnv)
   -- what the initial population must look like
   match lc.engine, seed with
   | .localOpt, some s =>
-    if env.pop != [s] || !env.reqs.isEmpty then throw s!"local deme {id} must start from its seed without evaluating"
+    if env.pop != [s] || !env.reqs.isEmpty then throw s!"local deme {showId id} must start from its seed without evaluating"
   | .localOpt, none => throw "local deme without seed"
   | .cma, none => throw "CMA deme without seed"
   | .cma, some _ | .lhs, _ | .sobol, _ =>
-    if !(env.pop.all ev.contains) then throw s!"initial population of {id} contains an unevaluated individual"
+    if !(env.pop.all ev.contains) then throw s!"initial population of {showId id} contains an unevaluated individual"
   | _, none =>
     if env.pop.length != lc.popSize || !(env.pop.all ev.contains) then
-      throw s!"root population of {id}: wrong size or unevaluated individual"
+      throw s!"root population of {showId id}: wrong size or unevaluated individual"
   | _, some s =>
-    if env.pop.length != lc.popSize then throw s!"initial population of {id} has {env.pop.length} members, configured {lc.popSize}"
-    if !(env.pop.all ev.contains) then throw s!"initial population of {id} contains an unevaluated individual"
-    if !(env.pop.any fun i => i.genome == s.genome) then throw s!"initial population of {id} does not contain its seed"
+    if env.pop.length != lc.popSize then throw s!"initial population of {showId id} has {env.pop.length} members, configured {lc.popSize}"
+    if !(env.pop.all ev.contains) then throw s!"initial population of {showId id} contains an unevaluated individual"
+    if !(env.pop.any fun i => i.genome == s.genome) then throw s!"initial population of {showId id} does not contain its seed"
   pure (t1.update id fun d => { d with hist := [[⟨env.pop, ev⟩]] })
 
 def init (cfg : Cfg) (stacks : List (List Problem.Wrapper)) (rootEnv : NewEnv) : Except String T :=
@@ -272,23 +284,23 @@ def init (cfg : Cfg) (stacks : List (List Problem.Wrapper)) (rootEnv : NewEnv) :
 def view (t : T) : Sprout.View :=
   { height := t.height, metaepoch := t.metaepoch, maximize := t.cfg.maximize,
     demes := t.levelMajor.map fun d =>
-      { id := d.id, level := d.level, active := d.active, children := d.children, seed := d.seed,
+      { id := showId d.id, level := d.level, active := d.active, children := d.children.map showId, seed := d.seed,
         pop := d.curPop, histBest := best t.cfg.maximize d.allInds, startedAt := d.startedAt,
         histLen := d.hist.length } }
 
-def doSprout (t : T) : List (String × Ind) → List NewEnv → Except String T
+def doSprout (t : T) : List (Id × Ind) → List NewEnv → Except String T
   | [], [] => .ok t
   | (pid, s) :: rest, e :: es => do
     let p ← match t.find pid with
       | some p => pure p
-      | none => throw s!"unknown parent {pid}"
+      | none => throw s!"unknown parent {showId pid}"
     let t1 ← createDeme t (some p) (some s) e
     doSprout t1 rest es
   | _, _ => .error "number of created demes differs from the number of seeds"
 
 /-- hibernation flags after a round: every active non-leaf deme that existed before the
 round sleeps iff the round took no seed from it -/
-def updateHibernation (t : T) (took : List String) : T :=
+def updateHibernation (t : T) (took : List Id) : T :=
   if !t.cfg.hibernation then t else
   { t with demes := t.demes.map fun d =>
       if d.active && d.level + 1 < t.height && d.startedAt != t.metaepoch then
@@ -300,13 +312,13 @@ inductive Ev
   /-- `run()`: the consult at the loop head (and, when false, the start of a step) -/
   | loop (gscEnv : Option Bool)
   /-- one generation of the running deme (or of the next scheduled deme) + the consults after it -/
-  | gen (id : String) (g : GenEnv) (lscEnv : Option Bool)
+  | gen (id : Id) (g : GenEnv) (lscEnv : Option Bool)
   /-- one complete local search -/
-  | localRun (id : String) (reqs : List Req) (iterates : List Ind) (nfev : Nat)
+  | localRun (id : Id) (reqs : List Req) (iterates : List Ind) (nfev : Nat)
   /-- consult after `run_metaepoch` and, when false, the sprouting round -/
   | round (gscEnv : Option Bool) (renv : Sprout.Env) (news : List NewEnv)
 
-def appendHist (t : T) (id : String) (gens : List Gen) (active : Bool) : T :=
+def appendHist (t : T) (id : Id) (gens : List Gen) (active : Bool) : T :=
   t.update id fun d => { d with hist := d.hist ++ [gens], active := d.active && active }
 
 def step (t : T) : Ev → Except String T
@@ -325,20 +337,20 @@ def step (t : T) : Ev → Except String T
     | .running queue cur => do
       let (q, done, pending) ← match cur, queue with
         | some (cid, done, pending), q =>
-          if cid == id then pure (q, done, pending) else throw s!"deme {id} produced a generation while {cid} is running"
+          if cid == id then pure (q, done, pending) else throw s!"deme {showId id} produced a generation while {showId cid} is running"
         | none, qid :: q =>
-          if qid == id then pure (q, 0, []) else throw s!"deme {id} runs, but {qid} is next in the schedule"
+          if qid == id then pure (q, 0, []) else throw s!"deme {showId id} runs, but {showId qid} is next in the schedule"
         | none, [] => throw "generation after the metaepoch ended"
-      let d ← match t.find id with | some d => pure d | none => throw s!"unknown deme {id}"
+      let d ← match t.find id with | some d => pure d | none => throw s!"unknown deme {showId id}"
       let lc ← match t.cfg.levels[d.level]? with | some lc => pure lc | none => throw "no level"
       if lc.engine == .localOpt then throw "local deme produced a generation"
-      if !d.active then throw s!"inactive deme {id} runs"
-      if t.gscSeen && done > 0 then throw s!"deme {id} performs another generation after the global stop condition held"
+      if !d.active then throw s!"inactive deme {showId id} runs"
+      if t.gscSeen && done > 0 then throw s!"deme {showId id} performs another generation after the global stop condition held"
       let parents := match pending.getLast? with | some p => p.inds | none => d.curPop
       let (t1, ev) ← evalReqs t id d.level true g.reqs
       let expected := if lc.engine == .cma then parents.length else lc.popSize
       match genOk t.cfg.maximize lc parents ev g.pop expected with
-      | .error e => throw s!"deme {id}: {e}"
+      | .error e => throw s!"deme {showId id}: {e}"
       | .ok _ => pure ()
       let gen : Gen := ⟨g.pop, ev⟩
       if lc.engine == .lhs || lc.engine == .sobol then
@@ -364,22 +376,22 @@ def step (t : T) : Ev → Except String T
           let lv ← match lscEval t2 d2 lscEnv lc.lsc with | some v => pure v | none => throw "no LSC verdict"
           let t3 := t2.update id fun d => { d with active := !lv }
           pure { t3 with pc := finish q }
-    | _ => .error s!"deme {id} runs outside run_metaepoch"
+    | _ => .error s!"deme {showId id} runs outside run_metaepoch"
   | .localRun id reqs iterates nfev =>
     match t.pc with
     | .running (qid :: q) none => do
-      if qid != id then throw s!"deme {id} runs, but {qid} is next in the schedule"
-      let d ← match t.find id with | some d => pure d | none => throw s!"unknown deme {id}"
+      if qid != id then throw s!"deme {showId id} runs, but {showId qid} is next in the schedule"
+      let d ← match t.find id with | some d => pure d | none => throw s!"unknown deme {showId id}"
       let lc ← match t.cfg.levels[d.level]? with | some lc => pure lc | none => throw "no level"
       if lc.engine != .localOpt then throw "localRun of a non-local deme"
-      if !d.active then throw s!"inactive deme {id} runs"
+      if !d.active then throw s!"inactive deme {showId id} runs"
       let (t1, ev) ← evalReqs t id d.level false reqs
       if nfev != reqs.length then throw s!"scipy reports nfev={nfev} but {reqs.length} evaluations were requested"
       let refusedHere := ev.any fun e => e.genome.isEmpty && e.fit == Fit.sentinel t.cfg.maximize
-      if !(iterates.all fun i => ev.contains i || (refusedHere && i.fit == Fit.sentinel t.cfg.maximize)) then throw s!"local deme {id} recorded an iterate that was never evaluated with that value"
+      if !(iterates.all fun i => ev.contains i || (refusedHere && i.fit == Fit.sentinel t.cfg.maximize)) then throw s!"local deme {showId id} recorded an iterate that was never evaluated with that value"
       let t2 := t1.update id fun d => { d with counter := d.counter + nfev, hist := d.hist ++ [[⟨iterates, ev⟩]], active := false }
       pure { t2 with pc := finish q }
-    | _ => .error s!"local deme {id} runs at the wrong moment"
+    | _ => .error s!"local deme {showId id} runs at the wrong moment"
   | .round ge renv news =>
     match t.pc with
     | .post =>
@@ -392,9 +404,11 @@ def step (t : T) : Ev → Except String T
         match Sprout.getSeeds (view t) renv t.cfg.mech with
         | none => .error "sprout mechanism cannot be performed (missing environment / IndexError)"
         | some seeds => do
-          let flat := seeds.flatMap fun c => c.inds.map fun i => (c.deme, i)
+          -- candidates name their parent by rendered id; translate back to paths
+          let idOf := fun (s : String) => ((t.demes.find? fun d => showId d.id == s).map (·.id)).getD []
+          let flat := seeds.flatMap fun c => c.inds.map fun i => (idOf c.deme, i)
           let t1 ← doSprout t flat news
-          pure { updateHibernation t1 (seeds.map (·.deme)) with pc := .head }
+          pure { updateHibernation t1 (seeds.map fun c => idOf c.deme) with pc := .head }
     | _ => .error "sprouting round at the wrong moment"
 
 def exec (t : T) : List Ev → Except String T
